@@ -664,3 +664,79 @@ Theorem coll_freezes_forever calls k s :
   (c_meta_frozen s = true ->
      match run_auth (AColl k s) calls with AColl _ s' => c_meta_frozen s' = true | _ => False end).
 Proof. exact (conj (coll_info_frozen_forever calls k s) (coll_metadata_frozen_forever calls k s)). Qed.
+
+(* ---------------------------------------------------------------- the table, in one statement *)
+Lemma minter_table f s sender k :
+  holds_role (AMinter f s) sender (minter_reserved f k) = false -> minter_step f s sender k = Err.
+Proof.
+  unfold minter_reserved, minter_step. destruct (has_msg f k) eqn:Hh; cbn [negb]; [ | reflexivity ].
+  destruct f, k; try discriminate Hh; cbn [holds_role admin_only creator_only andb]; intros H;
+    try discriminate H; rewrite H; reflexivity.
+Qed.
+
+Lemma coll_table k s env sender c :
+  holds_role (AColl k s) sender (if coll_has k c then coll_reserved c else RNobody) = false ->
+  coll_step k s env sender c = Err.
+Proof.
+  unfold coll_step. destruct (coll_has k c) eqn:Hh; cbn [negb]; [ | reflexivity ].
+  destruct c as [id to|id to|id sp|id sp|op|op|id o|id| |nc| | |a| |id| ]; cbn [coll_reserved holds_role]; intros H; try discriminate H.
+  - unfold transfer. destruct (find_token (c_tokens s) id); [ rewrite H | ]; reflexivity.
+  - unfold transfer. destruct (find_token (c_tokens s) id); [ rewrite H | ]; reflexivity.
+  - destruct (find_token (c_tokens s) id); [ rewrite H | ]; reflexivity.
+  - destruct (find_token (c_tokens s) id); [ rewrite H | ]; reflexivity.
+  - unfold assert_owner, is_owner. rewrite H. reflexivity.
+  - destruct (find_token (c_tokens s) id); [ rewrite H | ]; reflexivity.
+  - reflexivity.
+  - destruct (c_frozen s); [ reflexivity | ]. rewrite N.eqb_sym, H. reflexivity.
+  - unfold assert_owner, is_owner. rewrite H. reflexivity.
+  - rewrite N.eqb_sym, H. reflexivity.
+  - destruct a as [n e| |]; cbn [coll_reserved holds_role] in H; cbn [update_ownership].
+    + destruct (ow_owner (c_own s)) as [cur|]; [ | reflexivity ]. cbn [opt_is] in H.
+      rewrite N.eqb_sym, H. reflexivity.
+    + destruct (ow_pending (c_own s)) as [p|]; [ | reflexivity ]. cbn [opt_is] in H.
+      rewrite N.eqb_sym, H. reflexivity.
+    + destruct (ow_owner (c_own s)) as [cur|]; [ | reflexivity ]. cbn [opt_is] in H.
+      rewrite N.eqb_sym, H. reflexivity.
+  - rewrite H. reflexivity.
+  - rewrite H. reflexivity.
+  - destruct (c_enabled s); [ reflexivity | ]. rewrite H. reflexivity.
+Qed.
+
+Lemma wl_table w s sender x :
+  holds_role (AWl w s) sender (wl_reserved w x) = false -> wl_step w s sender x = Err.
+Proof.
+  destruct w; try reflexivity; cbn [wl_step wl_reserved]; destruct x as [k|l|];
+    try (cbn [holds_role]; intros H; rewrite H; reflexivity);
+    (match goal with |- context [wl_has ?W k] => destruct (wl_has W k) eqn:Hh end; cbn [negb]; [ | reflexivity ]);
+    destruct k; cbn [holds_role wl_admin_gated andb]; intros H; try discriminate H; rewrite H; reflexivity.
+Qed.
+
+Lemma splits_table s sender x :
+  holds_role (ASplits s) sender (match x with SDistribute => RSplitsDistributor | SUpdateAdmin _ => RSplitsAdmin end) = false ->
+  splits_step s sender x = Err.
+Proof. destruct x; cbn [holds_role splits_step]; intros H; rewrite H; reflexivity. Qed.
+
+(* every (contract, message, sender) triple: a sender who does not hold the role the
+   message is reserved to is refused *)
+Theorem table_sound st env sender m :
+  holds_role st sender (reserved_to st m) = false -> auth_step st env sender m = Err.
+Proof.
+  destruct st as [f s|k s|w s|s|p|]; destruct m as [k'|c|x|y| |w'|]; cbn [reserved_to auth_step]; try reflexivity.
+  - intros H. rewrite (minter_table _ _ _ _ H). reflexivity.
+  - intros H. rewrite (coll_table _ _ env _ _ H). reflexivity.
+  - intros H. rewrite (wl_table _ _ _ _ H). reflexivity.
+  - intros H. assert (E : splits_step s sender y = Err).
+    { apply splits_table. destruct y; exact H. }
+    rewrite E. reflexivity.
+  - cbn [holds_role]. discriminate.
+  - cbn [holds_role]. intros H. rewrite H. reflexivity.
+Qed.
+
+(* and in every reachable state: whatever history of calls by anyone came before *)
+Theorem table_sound_after_history st cs env sender m :
+  holds_role (run_auth st cs) sender (reserved_to (run_auth st cs) m) = false ->
+  auth_step (run_auth st cs) env sender m = Err /\ apply_auth (run_auth st cs) (env, sender, m) = run_auth st cs.
+Proof.
+  intros H. pose proof (table_sound _ env _ _ H) as E. split; [ exact E | ].
+  unfold apply_auth. rewrite E. reflexivity.
+Qed.
